@@ -15,6 +15,7 @@ import ClairModel.Proofs.CvssPrint
 import ClairModel.Proofs.CvssPrint2
 import ClairModel.Proofs.CvssPrint4
 import ClairModel.Proofs.CvssEnum
+import ClairModel.Proofs.CvssTemporal
 
 namespace ClairModel.Props.C18
 open ClairModel ClairModel.Cvss ClairModel.CvssSpec ClairModel.Gen.Cvss
@@ -71,6 +72,27 @@ theorem osv_severity_eq_band_v2 {av ac au c i a : Nat}
     ∃ k, score2 (mk2 av ac au c i a) = some k ∧
       osv2 (print2 (mk2 av ac au c i a)) = inBands osvDocV2 k :=
   (v2_base_facts hav hac hau hc hi ha).2
+
+/-- base × temporal, v3.1 (all 259 200 vectors): `V3.Score` equals the
+    published TemporalScore = Roundup(BaseScore × E × RL × RC) over the
+    published base score -/
+theorem v31_temporal_score_eq_spec {av ac pr ui s c i a e rl rc : Nat}
+    (hav : av ∈ g3 0) (hac : ac ∈ g3 1) (hpr : pr ∈ g3 2) (hui : ui ∈ g3 3)
+    (hs : s ∈ g3 4) (hc : c ∈ g3 5) (hi : i ∈ g3 6) (ha : a ∈ g3 7)
+    (he : e ∈ g3 8) (hrl : rl ∈ g3 9) (hrc : rc ∈ g3 10) :
+    score3 (mk3t 1 av ac pr ui s c i a e rl rc) =
+      (base3 1 av ac pr ui s c i a).bind fun b => temporal3 1 b e rl rc :=
+  v3_temporal_facts 1 (Or.inr rfl) sweep_v31 temporalTable_1 hav hac hpr hui hs hc hi ha he hrl hrc
+
+/-- base × temporal, v3.0 (exact arithmetic; the float64 evaluation deviates
+    on 228 of these vectors — finding v30-float-roundup) -/
+theorem v30_temporal_score_eq_spec {av ac pr ui s c i a e rl rc : Nat}
+    (hav : av ∈ g3 0) (hac : ac ∈ g3 1) (hpr : pr ∈ g3 2) (hui : ui ∈ g3 3)
+    (hs : s ∈ g3 4) (hc : c ∈ g3 5) (hi : i ∈ g3 6) (ha : a ∈ g3 7)
+    (he : e ∈ g3 8) (hrl : rl ∈ g3 9) (hrc : rc ∈ g3 10) :
+    score3 (mk3t 0 av ac pr ui s c i a e rl rc) =
+      (base3 0 av ac pr ui s c i a).bind fun b => temporal3 0 b e rl rc :=
+  v3_temporal_facts 0 (Or.inl rfl) sweep_v30 temporalTable_0 hav hac hpr hui hs hc hi ha he hrl hrc
 
 /-! ### tables (re-decided against the regenerated `Gen.Cvss` on every run) -/
 
